@@ -70,3 +70,19 @@ package r2
 //@   requires vcRectOK(r) && vcProbe(px, py) && margin.X >= 0 && margin.X <= 1e300 && margin.Y >= 0 && margin.Y <= 1e300
 //@   ensures [kept] r.ContainsPoint(Point{px, py}) ==> result.ContainsPoint(Point{px, py})
 //@   ensures [empty-stays-empty] r.IsEmpty() ==> result.IsEmpty()
+
+//@ func (r Rect) InteriorIntersects(other Rect) bool
+//@   inline
+//@   fp
+//@   ghost px float64, py float64
+//@   requires vcRectOK(r) && vcRectOK(other) && vcProbe(px, py)
+//@   ensures [complete] r.InteriorContainsPoint(Point{px, py}) && other.ContainsPoint(Point{px, py}) ==> result
+//@   ensures [needs-plain-intersection] result ==> r.Intersects(other)
+
+//@ func (r Rect) ExpandedByMargin(margin float64) Rect
+//@   inline
+//@   fp
+//@   ghost px float64, py float64
+//@   requires vcRectOK(r) && vcProbe(px, py) && margin >= 0 && margin <= 1e300
+//@   ensures [kept] r.ContainsPoint(Point{px, py}) ==> result.ContainsPoint(Point{px, py})
+//@   ensures [empty-stays-empty] r.IsEmpty() ==> result.IsEmpty()
